@@ -355,7 +355,9 @@ def run_impl(module, payload, timeout=1800):
     for f in (fout, fcov):
         if os.path.exists(f):
             os.remove(f)
-    anchors = [] if os.environ.get("VERIF_NO_COVERAGE") else anchor_files(module)
+    # c04 breaks hanging mutations with SIGALRM; an exception raised from the handler while the tracer is active left a run
+    # blocked (seen once, on a seeded change that hangs): that check is not traced
+    anchors = [] if (os.environ.get("VERIF_NO_COVERAGE") or module in ("c04",)) else anchor_files(module)
     code = ("import sys, json; sys.path.insert(0, %r); import importlib\n"
             "anchors = %r; cov = None\n"
             "try:\n"
